@@ -94,6 +94,7 @@ def _work(idx: int) -> dict:
     out["functions"] = L.stop_trace()
     out["paths"] = len(results)
     out["queries"] = stats.queries
+    out["cache_hits"] = stats.cache_hits
     out["solver_s"] = round(stats.solver_s, 3)
     out["branches"] = stats.branches
     goals = set()
@@ -211,7 +212,7 @@ def run_property(pid: str, instances: List[Instance], meta: dict, tier: str, see
 
     known = load_known()
     violations, known_seen, problems, inconclusive = [], [], [], []
-    tot = {"paths": 0, "ok_paths": 0, "queries": 0, "solver_s": 0.0, "branches": 0, "validated": 0, "aborted": 0}
+    tot = {"paths": 0, "ok_paths": 0, "queries": 0, "cache_hits": 0, "solver_s": 0.0, "branches": 0, "validated": 0, "aborted": 0}
     labels: Dict[str, dict] = {}
     functions: Dict[str, str] = {}
     samples = []
@@ -304,6 +305,7 @@ def run_property(pid: str, instances: List[Instance], meta: dict, tier: str, see
             "paths_total": tot["paths"],
             "paths_infeasible_or_pruned": tot["aborted"],
             "queries": tot["queries"],
+            "queries_answered_from_cache": tot["cache_hits"],
             "solver_s": round(tot["solver_s"], 2),
             "solver": "z3 " + _z3v(),
             "functions_encoded": sorted(functions),
